@@ -457,6 +457,9 @@ def run(ctx):
             case = gen.deep_folded_case(r2)
             ctx.cell("deep-folded-length-source")
             check_case(ctx, case, r2, shapes)
+        for _ in range(6 if not ctx.thorough else 60):
+            ctx.cell("bit-field-units-placed-at-run-time")
+            check_case(ctx, gen.runtime_placed_units_case(r2), r2, shapes)
     for i in range(n):
         if ctx.out_of_time():
             break
